@@ -2,13 +2,17 @@
 
 tie    : correspondence supp names_at per read == Den at_ (lean/SuppModel/Den/Model.lean via drv_den), module and
          function level; executable Sem (run) == instrumented CPython trace
+         real MergedDict == MDict model (lean/SuppModel/MDict/Model.lean via drv_mdict) on generated chains, all lengths
 search : real supp vs real CPython on every decision sequence of generated programs
 """
-from . import flowsem
+from . import flowsem, mdict
 
 
 def run(check):
     flowsem.run_property(check, 'C02')
+    # the lookup chain itself (supp/merged_dict.py): the first table that has the name answers, for every chain length and
+    # nesting (family MDict, lean/SuppModel/Props/MDict.lean); after the Den streams so that they draw the same random numbers
+    mdict.run(check)
 
 
 def replay(path):
